@@ -192,6 +192,8 @@ def run(ctx, prog):
                     if isinstance(val, VAgg) and val.variant == 'None':
                         continue   # optional member absent on this path
                     r = proj_of(t, 'self')
+                    if r is None and isinstance(val, VAgg) and str(val.variant) not in ('Some', 'None'):
+                        return 'field %s is re-shaped on the way back (rebuilt as %s{..} from parts of the stored value): not the stored value' % (nm, val.variant)
                     if r is None:
                         # Option<..> rebuilt with map(..): look inside
                         inner_projs = [proj_of(s, 'self') for s in subterms(t) if isinstance(s, tuple) and s and s[0] in ('field', 'app')]
